@@ -411,3 +411,210 @@ pub(crate) fn api_nlri_of(v: &Val) -> api::Nlri {
     api::Nlri { nlri }
 }
 
+
+// ---------------------------------------------------------------- EVPN
+pub(crate) fn ip_val(a: &std::net::IpAddr) -> Val {
+    match a {
+        std::net::IpAddr::V4(x) => Val::L(vec![i(4), Val::n(u32::from(*x))]),
+        std::net::IpAddr::V6(x) => Val::L(vec![i(6), Val::from_bytes(&x.octets())]),
+    }
+}
+
+pub(crate) fn ip_of(v: &Val) -> std::net::IpAddr {
+    if v.at(0).int() == 4 {
+        std::net::IpAddr::V4(Ipv4Addr::from(v.at(1).u32()))
+    } else {
+        std::net::IpAddr::V6(v6_of(v.at(1)))
+    }
+}
+
+pub(crate) fn evpn_val(n: &packet::evpn::EvpnNlri) -> Val {
+    use packet::evpn::EvpnNlri as E;
+    match n {
+        E::EthernetAutoDiscovery(r) => Val::L(vec![
+            i(1),
+            rd_bytes_val(&r.rd),
+            Val::from_bytes(&r.esi.0),
+            Val::n(r.etag),
+            Val::n(r.label),
+        ]),
+        E::MacIpAdvertisement(m) => Val::L(vec![
+            i(2),
+            rd_bytes_val(&m.rd),
+            Val::from_bytes(&m.esi.0),
+            Val::n(m.etag),
+            Val::from_bytes(&m.mac),
+            Val::opt(m.ip.as_ref().map(ip_val)),
+            Val::n(m.label1),
+            Val::opt(m.label2.map(Val::n)),
+        ]),
+        E::InclusiveMulticastEthernetTag(t) => {
+            Val::L(vec![i(3), rd_bytes_val(&t.rd), Val::n(t.etag), ip_val(&t.originating_router_ip)])
+        }
+        E::EthernetSegment(r) => Val::L(vec![
+            i(4),
+            rd_bytes_val(&r.rd),
+            Val::from_bytes(&r.esi.0),
+            ip_val(&r.originating_router_ip),
+        ]),
+        E::EthernetIpPrefix(r) => Val::L(vec![
+            i(5),
+            rd_bytes_val(&r.rd),
+            Val::from_bytes(&r.esi.0),
+            Val::n(r.etag),
+            ip_val(&r.ip_prefix),
+            Val::n(r.prefix_len),
+            ip_val(&r.gateway_ip),
+            Val::n(r.label),
+        ]),
+    }
+}
+
+fn esi_of(v: &Val) -> packet::evpn::Esi {
+    let b = v.bytes();
+    let mut a = [0u8; 10];
+    a.copy_from_slice(&b[..10]);
+    packet::evpn::Esi(a)
+}
+
+// same shape as evpn_val, the route distinguisher given as [type, admin, assigned]
+pub(crate) fn evpn_of(v: &Val) -> packet::evpn::EvpnNlri {
+    use packet::evpn::*;
+    let l = v.list();
+    match l[0].int() {
+        1 => EvpnNlri::EthernetAutoDiscovery(EthernetAutoDiscoveryRoute {
+            rd: rd_of(&l[1]),
+            esi: esi_of(&l[2]),
+            etag: l[3].u32(),
+            label: l[4].u32(),
+        }),
+        2 => {
+            let mut mac = [0u8; 6];
+            mac.copy_from_slice(&l[4].bytes()[..6]);
+            EvpnNlri::MacIpAdvertisement(MacIpAdvertisement {
+                rd: rd_of(&l[1]),
+                esi: esi_of(&l[2]),
+                etag: l[3].u32(),
+                mac,
+                ip: l[5].list().first().map(ip_of),
+                label1: l[6].u32(),
+                label2: l[7].list().first().map(|x| x.u32()),
+            })
+        }
+        3 => EvpnNlri::InclusiveMulticastEthernetTag(InclusiveMulticastEthernetTag {
+            rd: rd_of(&l[1]),
+            etag: l[2].u32(),
+            originating_router_ip: ip_of(&l[3]),
+        }),
+        4 => EvpnNlri::EthernetSegment(EthernetSegmentRoute {
+            rd: rd_of(&l[1]),
+            esi: esi_of(&l[2]),
+            originating_router_ip: ip_of(&l[3]),
+        }),
+        _ => EvpnNlri::EthernetIpPrefix(EthernetIpPrefixRoute {
+            rd: rd_of(&l[1]),
+            esi: esi_of(&l[2]),
+            etag: l[3].u32(),
+            ip_prefix: ip_of(&l[4]),
+            prefix_len: l[5].u8(),
+            gateway_ip: ip_of(&l[6]),
+            label: l[7].u32(),
+        }),
+    }
+}
+
+fn api_esi_val(e: &Option<api::EthernetSegmentIdentifier>) -> Val {
+    match e {
+        None => Val::L(vec![]),
+        Some(e) => Val::L(vec![Val::n(e.r#type), Val::from_bytes(&e.value)]),
+    }
+}
+
+fn api_esi_of(v: &Val) -> Option<api::EthernetSegmentIdentifier> {
+    let l = v.list();
+    if l.is_empty() {
+        None
+    } else {
+        Some(api::EthernetSegmentIdentifier { r#type: l[0].u32(), value: l[1].bytes() })
+    }
+}
+
+pub(crate) fn api_evpn_val(n: &api::Nlri) -> Val {
+    use api::nlri::Nlri as N;
+    match &n.nlri {
+        Some(N::EvpnEthernetAd(r)) => Val::L(vec![
+            i(1),
+            api_rd_val(&r.rd),
+            api_esi_val(&r.esi),
+            Val::n(r.ethernet_tag),
+            Val::n(r.label),
+        ]),
+        Some(N::EvpnMacadv(r)) => Val::L(vec![
+            i(2),
+            api_rd_val(&r.rd),
+            api_esi_val(&r.esi),
+            Val::n(r.ethernet_tag),
+            s_val(&r.mac_address),
+            s_val(&r.ip_address),
+            Val::L(r.labels.iter().map(|x| Val::n(*x)).collect()),
+        ]),
+        Some(N::EvpnMulticast(r)) => {
+            Val::L(vec![i(3), api_rd_val(&r.rd), Val::n(r.ethernet_tag), s_val(&r.ip_address)])
+        }
+        Some(N::EvpnEthernetSegment(r)) => {
+            Val::L(vec![i(4), api_rd_val(&r.rd), api_esi_val(&r.esi), s_val(&r.ip_address)])
+        }
+        Some(N::EvpnIpPrefix(r)) => Val::L(vec![
+            i(5),
+            api_rd_val(&r.rd),
+            api_esi_val(&r.esi),
+            Val::n(r.ethernet_tag),
+            s_val(&r.ip_prefix),
+            Val::n(r.ip_prefix_len),
+            s_val(&r.gw_address),
+            Val::n(r.label),
+        ]),
+        _ => Val::L(vec![i(99)]),
+    }
+}
+
+pub(crate) fn api_evpn_of(v: &Val) -> api::Nlri {
+    use api::nlri::Nlri as N;
+    let l = v.list();
+    let n = match l[0].int() {
+        1 => N::EvpnEthernetAd(api::EvpnEthernetAutoDiscoveryRoute {
+            rd: api_rd_of(&l[1]),
+            esi: api_esi_of(&l[2]),
+            ethernet_tag: l[3].u32(),
+            label: l[4].u32(),
+        }),
+        2 => N::EvpnMacadv(api::EvpnmacipAdvertisementRoute {
+            rd: api_rd_of(&l[1]),
+            esi: api_esi_of(&l[2]),
+            ethernet_tag: l[3].u32(),
+            mac_address: s_of(&l[4]),
+            ip_address: s_of(&l[5]),
+            labels: l[6].list().iter().map(|x| x.u32()).collect(),
+        }),
+        3 => N::EvpnMulticast(api::EvpnInclusiveMulticastEthernetTagRoute {
+            rd: api_rd_of(&l[1]),
+            ethernet_tag: l[2].u32(),
+            ip_address: s_of(&l[3]),
+        }),
+        4 => N::EvpnEthernetSegment(api::EvpnEthernetSegmentRoute {
+            rd: api_rd_of(&l[1]),
+            esi: api_esi_of(&l[2]),
+            ip_address: s_of(&l[3]),
+        }),
+        _ => N::EvpnIpPrefix(api::EvpnipPrefixRoute {
+            rd: api_rd_of(&l[1]),
+            esi: api_esi_of(&l[2]),
+            ethernet_tag: l[3].u32(),
+            ip_prefix: s_of(&l[4]),
+            ip_prefix_len: l[5].u32(),
+            gw_address: s_of(&l[6]),
+            label: l[7].u32(),
+        }),
+    };
+    api::Nlri { nlri: Some(n) }
+}
